@@ -24,6 +24,8 @@ def _graphs(vc, shape):
     yield "tensor", vc.call(f"{P}.from_input", t())
     yield "constant", vc.call(f"{P}.from_input", vc.new(f"{SP}:ConstantParameter", *shape, value=vc.real("c")))
     yield "reference", vc.call(f"{P}.from_input", vc.new(f"{SP}:ReferenceParameter", t()))
+    yield "frozen", vc.call(f"{P}.from_unary", vc.new(f"{SP}:ExpParameter", tuple(shape)),
+                            vc.new(f"{SP}:TensorParameter", *shape, initializer=init, learnable=False))
     yield "chain", vc.call(f"{P}.from_sequence", t(), vc.new(f"{SP}:ExpParameter", tuple(shape)), vc.new(f"{SP}:SoftmaxParameter", tuple(shape)))
     yield "binary", vc.call(f"{P}.from_binary", vc.new(f"{SP}:HadamardParameter", tuple(shape), tuple(shape)), t(),
                             vc.call(f"{P}.from_unary", vc.new(f"{SP}:SigmoidParameter", tuple(shape)), vc.new(f"{SP}:ReferenceParameter", t())))
@@ -33,7 +35,7 @@ def _graphs(vc, shape):
                              vc.call(f"{P}.from_unary", vc.new(f"{SP}:SquareParameter", tuple(shape)), vc.new(f"{SP}:ReferenceParameter", shared)))
 
 
-for _g in ("tensor", "constant", "reference", "chain", "binary", "diamond"):
+for _g in ("tensor", "constant", "reference", "frozen", "chain", "binary", "diamond"):
     def _h(vc, _g=_g):
         A, Bn = vc.int("A", lo=1), vc.int("B", lo=1)
         P = dict(_graphs(vc, (A, Bn)))[_g]
